@@ -29,13 +29,19 @@ pub fn fingerprint_path(full: &Path) -> std::io::Result<Fingerprint> {
     }
 }
 
-/// Walk a local tree and content-fingerprint every file into an `FpMap`. Files
-/// whose fingerprint can't be read (permission/race) are skipped, never guessed.
+/// Walk a local tree and content-fingerprint every file into an `FpMap`. A file that
+/// vanished during the walk is simply absent; a file that is there but cannot be read is
+/// an error — leaving it out would make it look deleted, and the reconciler would then
+/// delete (or overwrite) the other replica's copy.
 pub fn discover_local_fingerprints(root: &Path) -> Result<FpMap, Box<dyn std::error::Error>> {
     let mut out = FpMap::new();
     for rel in discover_local_files(root)? {
-        if let Ok(fp) = fingerprint_path(&root.join(&rel)) {
-            out.insert(rel, fp);
+        match fingerprint_path(&root.join(&rel)) {
+            Ok(fp) => {
+                out.insert(rel, fp);
+            }
+            Err(e) if e.kind() == std::io::ErrorKind::NotFound => {}
+            Err(e) => return Err(format!("{}: {e}", rel.display()).into()),
         }
     }
     Ok(out)
